@@ -1200,7 +1200,7 @@ func (m *Model) readFile(c *Conn, r Req, what string) error {
 		}
 		return nil
 	}
-	if m.ro.kind != roObj || unseekable(m.ro.obj, r.Off) {
+	if m.ro.kind != roObj {
 		// {-1 header alone | connection ended without stray bytes}
 		data, closed, err := c.ReadN(4)
 		if err != nil {
